@@ -249,6 +249,37 @@ pub fn c03(opts: &Opts, out: &mut Out) {
             nb += 1;
         }
     }
+    // an adaptively built cancelling pair: two individually invalid members whose defects are equal and opposite under
+    // the factors observed on earlier runs must not make the batch pass (accept iff every member verifies)
+    {
+        use merlin::tap;
+        let a = &valid[1];
+        let b = &valid[6];
+        let pr = fmrun::params(n, a.inst.cap, t);
+        let gb0 = fmx::gen_ids(&pr, n).gb[0];
+        let run = |da: Scalar, db: Scalar| -> (bool, FP) {
+            let mut pa = fmx::parts(&a.proof);
+            pa.d1[0] += da;
+            let mut pb = fmx::parts(&b.proof);
+            pb.d1[0] += db;
+            let mut ts = vec![a.inst.transcript(), b.inst.transcript()];
+            tap::start();
+            crate::fm::tap_start();
+            let r = Proof::verify_batch(&mut ts, &[a.stmt.clone(), b.stmt.clone()], &[pa.to_proof().unwrap(), pb.to_proof().unwrap()], VerifyAction::VerifyOnly);
+            let res = crate::fm::tap_take().last().cloned().unwrap_or_default();
+            let _ = tap::take();
+            (r.is_ok(), res)
+        };
+        let delta = Scalar::from(5u8);
+        let (oka, ra) = run(delta, Scalar::ZERO);
+        let (okb, rb) = run(Scalar::ZERO, delta);
+        let (fa, fb) = (ra.coord(gb0) * delta.invert(), rb.coord(gb0) * delta.invert());
+        out.oracle("C03:batch-verdict", !oka && !okb, "cancelling-pair single defects", "a batch with one perturbed member was accepted");
+        if fb != Scalar::ZERO {
+            let (okc, _) = run(delta, -(delta * fa * fb.invert()));
+            out.oracle("C03:cancelling-pair-rejected", !okc, "cancelling-pair k=2", "a batch of two individually invalid members with equal-and-opposite defects (computed from factors observed on earlier runs) was accepted");
+        }
+    }
     out.case(format!("templates: {}", valid.iter().map(|t| t.desc()).collect::<Vec<_>>().join(" ")));
     out.case(format!("sizes: {:?}; index classes 0,1,k/2,k-1,254..257,511,512; refusals: empty, length mismatch, other bits/degree/pedersen, promise out of range", sizes));
     out.stat("batches", nb);
